@@ -75,7 +75,8 @@ pub fn gen_plan(rng: &mut Prng) -> RgPlan {
         let names: Vec<String> = if rng.coin() {
             (0..nv).map(|i| format!("v{i}")).collect()
         } else {
-            let pool = ["a", "b", "c", "d", "e", "x1", "node_7", "Q"];
+            let mut pool = vec!["a", "b", "c", "d", "e", "x1", "node_7", "Q", "a_copy", "n_core", "x_c1", "v_c", "b_c0"];
+            rng.shuffle(&mut pool);
             pool[..nv].iter().map(|s| s.to_string()).collect()
         };
         let ne = rng.range(0, 8);
